@@ -208,6 +208,8 @@ class Evaluator(object):
         self.files = []                     # FileV objects created by open()
         self.last_env = None                # final environment of the outermost function evaluated last
         self.ext_summaries = {}             # external callable name -> function(ev, args, kwargs, node)
+        self.raise_conds = []               # (function qualname, condition under which an `if ...: raise` fires incl. enclosing ifs, node)
+        self._path = []                     # conditions of the enclosing if-branches
         self.fold_const_types = False       # type(<numeric constant>) folds to int / float
         self.rat_type_is_float = False      # type(<symbolic number>) folds to float (used where inputs are documented floats)
         self._assigned_cache = {}
@@ -395,8 +397,10 @@ class Evaluator(object):
             return alg.opaque('truthy', (v,))
         if isinstance(v, IteV):
             return self.ite(v.cond, self.truth(v.a), self.truth(v.b))
-        if isinstance(v, (Obj, Mat, Closure, Ref, DictV)):
+        if isinstance(v, (Obj, Mat, Closure, Ref, DictV, BoundMethod, BoundExt)):
             return Bool(True)
+        if isinstance(v, CallV):
+            return alg.opaque('truthy', (v.rat,))
         return alg.opaque('truthy', (argkey(v),))
 
     def compare(self, op, a, b, node=None):
@@ -545,12 +549,25 @@ class Evaluator(object):
 
     def exec_if(self, st, env, func):
         cond = self.truth(self.eval(st.test, env, func), st)
+        if any(isinstance(b, ast.Raise) for b in st.body):
+            full = cond
+            for c in reversed(self._path):
+                full = self.cand(c, full)
+            self.raise_conds.append((self._stack[-1].qualname if self._stack else '?', full, st))
         if isinstance(cond, Bool):
             return self.exec_block(st.body if cond.b else st.orelse, env, func)
         ea = _copy_env(env)
         eb = _copy_env(env)
-        oa = self.exec_block(st.body, ea, func)
-        ob = self.exec_block(st.orelse, eb, func)
+        self._path.append(cond)
+        try:
+            oa = self.exec_block(st.body, ea, func)
+        finally:
+            self._path.pop()
+        self._path.append(self.cnot(cond))
+        try:
+            ob = self.exec_block(st.orelse, eb, func)
+        finally:
+            self._path.pop()
         rets = [([(cond, True)] + g, v) for g, v in oa.returns] + [([(cond, False)] + g, v) for g, v in ob.returns]
         if oa.env is None and ob.env is None:
             return Outcome(None, rets)
@@ -815,9 +832,26 @@ class Evaluator(object):
     def e_BoolOp(self, e, env, func):
         vals = [self.eval(v, env, func) for v in e.values]
         conds = [self.truth(v, e) for v in vals]
-        r = conds[0]
-        for c in conds[1:]:
-            r = self.cand(r, c) if isinstance(e.op, ast.And) else self.cor(r, c)
+
+        def is_cond(v):
+            if isinstance(v, Bool):
+                return True
+            if isinstance(v, Rat):
+                a = _single_atom(v)
+                return a is not None and a.kind == 'fn' and a.name in COND_NAMES
+            return False
+        if all(is_cond(v) for v in vals):
+            r = conds[0]
+            for c in conds[1:]:
+                r = self.cand(r, c) if isinstance(e.op, ast.And) else self.cor(r, c)
+            return r
+        # value semantics: `a and b` is b when a is true else a; `a or b` is a when a is true else b
+        r = vals[-1]
+        for v, c in zip(reversed(vals[:-1]), reversed(conds[:-1])):
+            if isinstance(e.op, ast.And):
+                r = r if (isinstance(c, Bool) and c.b) else (v if isinstance(c, Bool) else self.ite(c, r, v))
+            else:
+                r = v if (isinstance(c, Bool) and c.b) else (r if isinstance(c, Bool) else self.ite(c, v, r))
         return r
 
     def e_UnaryOp(self, e, env, func):
@@ -1204,6 +1238,11 @@ class Evaluator(object):
                     except Exception:
                         pass
                 return alg.opaque('float', (argkey(a[0]),))
+            if short == 'getattr' and len(a) in (2, 3) and isinstance(a[1], Str) and isinstance(a[0], Obj) and a[0].cls is not None:
+                if a[1].s in a[0].fields or a[1].s in a[0].cls.methods:
+                    return self.getattr(a[0], a[1].s, node)
+                if len(a) == 3:
+                    return a[2]
             if short == 'abs' and num and len(a) == 1:
                 return alg.fabs(a[0])
             if short == 'round' and a and isinstance(a[0], Rat):
